@@ -24,6 +24,8 @@ import (
 	"os"
 	"runtime/debug"
 	"sort"
+	"strconv"
+	"strings"
 
 	"go.flow.arcalot.io/pluginsdk/schema"
 	"verif/harness/sup"
@@ -36,10 +38,15 @@ type opt struct {
 	V    int64 `json:"v"`
 }
 
+// prop: has_default = the property declares a default value (rendered by defaultFor to fit the type),
+// disabled = the property is switched off with .Disable(reason).  Always written (TLC records of one
+// family carry the same fields).
 type prop struct {
-	Name     string `json:"name"`
-	Required bool   `json:"required"`
-	Type     *ast   `json:"type"`
+	Name       string `json:"name"`
+	Required   bool   `json:"required"`
+	Type       *ast   `json:"type"`
+	HasDefault bool   `json:"has_default"`
+	Disabled   bool   `json:"disabled"`
 }
 
 type member struct {
@@ -310,12 +317,79 @@ func buildObject(a *ast) (*schema.ObjectSchema, error) {
 		if err != nil {
 			return nil, err
 		}
-		ps[p.Name] = schema.NewPropertySchema(t, nil, p.Required, nil, nil, nil, nil, nil)
+		var def *string
+		if p.HasDefault {
+			d, ok := defaultFor(p.Type)
+			if !ok {
+				return nil, fmt.Errorf("property %s of kind %s declares a default (not well-formed: scalar kinds only)", p.Name, p.Type.Kind)
+			}
+			def = &d
+		}
+		ps[p.Name] = schema.NewPropertySchema(t, nil, p.Required, nil, nil, nil, def, nil)
+		if p.Disabled {
+			ps[p.Name] = ps[p.Name].Disable(disabledReason)
+		}
 	}
+	var o *schema.ObjectSchema
 	if a.IDUnenforced {
-		return schema.NewUnenforcedIDObjectSchema(a.ID, ps), nil
+		o = schema.NewUnenforcedIDObjectSchema(a.ID, ps)
+	} else {
+		o = schema.NewObjectSchema(a.ID, ps)
 	}
-	return schema.NewObjectSchema(a.ID, ps), nil
+	// binding: the flags of the AST are what the SDK's accessors report on the built object
+	defaults := o.GetDefaults()
+	for _, p := range a.Props {
+		built, ok := o.Properties()[p.Name]
+		if !ok {
+			return nil, bindErr(fmt.Sprintf("object %s built without its property %s", a.ID, p.Name))
+		}
+		_, inDefaults := defaults[p.Name]
+		if (built.Default() != nil) != p.HasDefault || inDefaults != p.HasDefault {
+			return nil, bindErr(fmt.Sprintf("property %s.%s: has_default=%v in the AST, Default()!=nil is %v, in GetDefaults() %v",
+				a.ID, p.Name, p.HasDefault, built.Default() != nil, inDefaults))
+		}
+		if built.Disabled != p.Disabled || built.Required() != p.Required {
+			return nil, bindErr(fmt.Sprintf("property %s.%s: disabled=%v required=%v in the AST, the built property says %v / %v",
+				a.ID, p.Name, p.Disabled, p.Required, built.Disabled, built.Required()))
+		}
+	}
+	return o, nil
+}
+
+const disabledReason = "switched off by the generator"
+
+var defaultKinds = map[string]bool{"int": true, "float": true, "string": true, "bool": true, "enum_int": true, "enum_string": true}
+
+// defaultFor renders a default value (JSON, as the SDK expects it) that is a value of the type.
+func defaultFor(t *ast) (string, bool) {
+	clamp := func(v int64) int64 {
+		if t.Min != nil && t.Min.Some && v < t.Min.V {
+			v = t.Min.V
+		}
+		if t.Max != nil && t.Max.Some && v > t.Max.V {
+			v = t.Max.V
+		}
+		return v
+	}
+	switch t.Kind {
+	case "int", "float":
+		return strconv.FormatInt(clamp(3), 10), true
+	case "string":
+		return strconv.Quote(strings.Repeat("x", int(clamp(1)))), true
+	case "bool":
+		return "true", true
+	case "enum_int":
+		if len(t.Values) == 0 {
+			return "", false
+		}
+		return strconv.FormatInt(t.Values[0], 10), true
+	case "enum_string":
+		if len(t.Values) == 0 {
+			return "", false
+		}
+		return strconv.Quote(token(t.Values[0])), true
+	}
+	return "", false
 }
 
 // rebuild = Rebuild(Describe(s)): SelfSerialize, UnserializeScope, and the link step the SDK
